@@ -10,6 +10,7 @@ import (
 	"crypto/tls"
 	"fmt"
 	"io"
+	"net"
 	"strings"
 	"sync"
 	"testing"
@@ -229,7 +230,7 @@ func serverCase(t fataler, cfg sconfig, suffix string, cuts []int, handshake boo
 }
 
 type prefixConn struct {
-	*pipe.Conn
+	net.Conn
 	prefix []byte
 }
 
@@ -313,14 +314,28 @@ type cconfig struct {
 	injected  string // plaintext after the STARTTLS OK line
 	sameWrite bool
 	handshake string // real, garbage, none
+	dial      bool   // enter through imapclient.DialStartTLS over loopback TCP instead of NewStartTLS over a pipe
 }
 
 func (c cconfig) String() string {
-	return fmt.Sprintf("greeting=%s answer=%s injected=%q sameWrite=%v handshake=%s", c.greeting, c.answer, c.injected, c.sameWrite, c.handshake)
+	return fmt.Sprintf("greeting=%s answer=%s injected=%q sameWrite=%v handshake=%s dial=%v", c.greeting, c.answer, c.injected, c.sameWrite, c.handshake, c.dial)
 }
 
 func clientCase(t fataler, cfg cconfig) (upgraded bool) {
-	cEnd, sEnd := pipe.New()
+	var cEnd, sEnd net.Conn
+	var ln net.Listener
+	if cfg.dial {
+		var err error
+		if ln, err = net.Listen("tcp", "127.0.0.1:0"); err != nil {
+			cfg.dial = false // no loopback here: use the pipe
+		} else {
+			defer ln.Close()
+		}
+	}
+	if !cfg.dial {
+		a, b := pipe.New()
+		cEnd, sEnd = a, b
+	}
 	var hist []string
 	var hmu sync.Mutex
 	logf := func(f string, a ...any) {
@@ -346,6 +361,15 @@ func clientCase(t fataler, cfg cconfig) (upgraded bool) {
 	var tlsServer *tls.Conn
 	go func() {
 		defer close(scriptDone)
+		if cfg.dial {
+			c, err := ln.Accept()
+			if err != nil {
+				logf("accept: %v", err)
+				return
+			}
+			sEnd = c
+			defer c.Close()
+		}
 		switch cfg.greeting {
 		case "OK":
 			sEnd.Write([]byte("* OK hello\r\n"))
@@ -437,6 +461,11 @@ func clientCase(t fataler, cfg cconfig) (upgraded bool) {
 	}
 	resCh := make(chan res, 1)
 	go func() {
+		if cfg.dial {
+			c, err := imapclient.DialStartTLS(ln.Addr().String(), opts)
+			resCh <- res{c, err}
+			return
+		}
 		c, err := imapclient.NewStartTLS(cEnd, opts)
 		resCh <- res{c, err}
 	}()
@@ -450,7 +479,7 @@ func clientCase(t fataler, cfg cconfig) (upgraded bool) {
 	expectErr := cfg.greeting == "PREAUTH" || cfg.greeting == "BYE" || cfg.answer != "OK"
 	if expectErr && r.err == nil {
 		r.c.Close()
-		fail("NewStartTLS succeeded although the greeting was %s / the STARTTLS answer was %s", cfg.greeting, cfg.answer)
+		fail("NewStartTLS/DialStartTLS succeeded although the greeting was %s / the STARTTLS answer was %s", cfg.greeting, cfg.answer)
 	}
 	if r.err == nil {
 		c := r.c
@@ -483,8 +512,15 @@ func clientCase(t fataler, cfg cconfig) (upgraded bool) {
 		}
 		c.Close()
 	}
-	cEnd.Close()
-	sEnd.Close()
+	if cEnd != nil {
+		cEnd.Close()
+	}
+	if ln != nil {
+		ln.Close()
+	}
+	if !cfg.dial {
+		sEnd.Close()
+	}
 	<-scriptDone
 	umu.Lock()
 	defer umu.Unlock()
@@ -507,6 +543,7 @@ func TestPropClientBoundary(t *testing.T) {
 			injected:  rapid.SampledFrom(injections).Draw(t, "injected"),
 			sameWrite: rapid.Bool().Draw(t, "sameWrite"),
 			handshake: rapid.SampledFrom([]string{"real", "real", "garbage", "none"}).Draw(t, "handshake"),
+			dial:      rapid.IntRange(0, 3).Draw(t, "dial") == 0,
 		}
 		up := clientCase(t, cfg)
 		ev.Eval()
@@ -538,7 +575,8 @@ func TestReplayScenarios(t *testing.T) {
 	for _, g := range []string{"OK", "OKCAP", "PREAUTH", "BYE"} {
 		for _, inj := range []string{"", injections[5]} {
 			clientCase(t, cconfig{greeting: g, answer: "OK", injected: inj, sameWrite: true, handshake: "real"})
-			ev.Eval()
+			clientCase(t, cconfig{greeting: g, answer: "OK", injected: inj, sameWrite: true, handshake: "real", dial: true})
+			ev.EvalN(2)
 		}
 	}
 }
